@@ -215,7 +215,7 @@ var shJ5Text = map[string]string{
 	// the permitted types are a list: declaration order and repeats are part of the schema
 	"any.types_unsorted": "any:{only_defined:true types:\"google.protobuf.Timestamp\" types:\"google.protobuf.Duration\" types:\"google.protobuf.Empty\"}",
 	"any.types_dup":      "any:{types:\"google.protobuf.Timestamp\" types:\"google.protobuf.Duration\" types:\"google.protobuf.Timestamp\"}",
-	"enum.plain": "enum:{}", "oneof.plain": "oneof:{}",
+	"enum.plain":         "enum:{}", "oneof.plain": "oneof:{}",
 	"map.single_form": "map:{single_form:\"item\"}", "array.single_form": "array:{single_form:\"item\"}",
 	"string.plain": "string:{}", "integer.rules": "integer:{rules:{minimum:1 exclusive_minimum:true}}", "integer.plain": "integer:{}",
 	"float.plain": "float:{}", "bool.plain": "bool:{}", "bytes.plain": "bytes:{}",
